@@ -235,3 +235,315 @@ End Trace.
 Example one_in_flight_d13 :
   mon_one_in_flight (trace 7 (sinit 0 false) d13_schedule) = [(2, V_TWO_IN_FLIGHT_CLOSING)].
 Proof. vm_compute. reflexivity. Qed.
+
+(** * C04: a message is seen again only after a Nack *)
+Definition spc_pub (p : spc) : option pubid :=
+  match p with
+  | SNone => None
+  | SWant p | SHead p | SSend p _ | SWait p _ | SExit p | SDone p => Some p
+  end.
+(** the publications of the LSpawn labels of a label list *)
+Definition spawn_pubs (ls : list label) : list pubid :=
+  flat_map (fun l => match l with LSpawn _ p => [p] | _ => [] end) ls.
+
+(** every copy carries the publication of its Sender thread; no two Sender threads carry the
+    same publication, now or later ([rest]: the labels still to come) *)
+Record Y (s : sstate) (rest : list label) : Prop := {
+  y_copy : forall c, c < next s ->
+           spc_pub (thr s (c_thr (copies s c))) = Some (c_pub (copies s c));
+  y_uniq : forall t1 t2 p, spc_pub (thr s t1) = Some p -> spc_pub (thr s t2) = Some p -> t1 = t2;
+  y_fresh : forall t p, spc_pub (thr s t) = Some p -> ~ In p (spawn_pubs rest);
+  y_nodup : NoDup (spawn_pubs rest)
+}.
+
+Lemma spawn_pubs_cons l rest :
+  spawn_pubs (l :: rest) = match l with LSpawn _ p => [p] | _ => [] end ++ spawn_pubs rest.
+Proof. reflexivity. Qed.
+
+Lemma y_skip s l rest : Y s (l :: rest) -> Y s rest.
+Proof.
+  intros [A B C D]. rewrite spawn_pubs_cons in *. constructor; auto.
+  - intros t p Hp Hin. apply (C t p Hp). apply in_or_app. now right.
+  - destruct l; simpl in D; auto. now inversion D.
+Qed.
+
+Lemma y_frame s s' l rest : Y s (l :: rest) ->
+  (forall t, spc_pub (thr s' t) = spc_pub (thr s t)) ->
+  (forall c, c < next s' ->
+     (c < next s /\ c_thr (copies s' c) = c_thr (copies s c)
+      /\ c_pub (copies s' c) = c_pub (copies s c))
+     \/ spc_pub (thr s' (c_thr (copies s' c))) = Some (c_pub (copies s' c))) ->
+  Y s' rest.
+Proof.
+  intros Hy Ht Hc. apply y_skip in Hy. destruct Hy as [A B C D]. constructor; auto.
+  - intros c Hlt. destruct (Hc c Hlt) as [(H1 & H2 & H3)|H]; [|exact H].
+    rewrite Ht, H2, H3. now apply A.
+  - intros t1 t2 p. rewrite !Ht. apply B.
+  - intros t p. rewrite Ht. apply C.
+Qed.
+
+Lemma y_step s l s' rest : SInv s -> Y s (l :: rest) -> sstep s l = Some s' -> Y s' rest.
+Proof.
+  intros I Hy E.
+  destruct l as [t p|  | | |t|t|t|t|t|t| |c|c]; simpl in E.
+  - (* LSpawn *)
+    destruct (thr s t) eqn:Et; try discriminate. inversion E; subst s'; clear E.
+    destruct Hy as [A B C D]. rewrite spawn_pubs_cons in *. simpl in C, D.
+    inversion D as [|? ? Dn Dd]; subst. constructor; simpl; auto.
+    + intros c Hlt. specialize (A c Hlt).
+      destruct (Nat.eq_dec (c_thr (copies s c)) t) as [Eq|Nq];
+        [rewrite Eq, Et in A; discriminate|now rewrite upd_other].
+    + intros t1 t2 q.
+      destruct (Nat.eq_dec t1 t) as [->|N1]; destruct (Nat.eq_dec t2 t) as [->|N2]; auto;
+        rewrite ?upd_same, ?upd_other by assumption; simpl.
+      * intros [= <-] H2. exfalso. apply (C t2 p H2). now left.
+      * intros H1 [= <-]. exfalso. apply (C t1 p H1). now left.
+      * apply B.
+    + intros t1 q. updt t t1; simpl.
+      * intros [= <-]. exact Dn.
+      * intros H1 Hin. apply (C t1 q H1). now right.
+  - sstep_cases E; apply (y_frame s _ _ rest Hy); simpl; auto.
+  - sstep_cases E; apply (y_frame s _ _ rest Hy); simpl; auto.
+  - sstep_cases E; apply (y_frame s _ _ rest Hy); simpl; auto.
+  - (* LStep *)
+    destruct (thr s t) as [|p|p|p c|p c|p|p] eqn:Et; try discriminate.
+    + sstep_cases E. apply (y_frame s _ _ rest Hy); simpl; auto.
+      intros t'. updt t t'; [now rewrite Et|reflexivity].
+    + assert (Hexit : Y (set_thr s t (SExit p)) rest).
+      { apply (y_frame s _ _ rest Hy); simpl; auto.
+        intros t'. updt t t'; [now rewrite Et|reflexivity]. }
+      destruct (closedf s); [inversion E; subst; exact Hexit|].
+      destruct (fixed s && closing s); inversion E; subst; [exact Hexit|].
+      apply (y_frame s _ _ rest Hy); simpl.
+      * intros t'. updt t t'; [now rewrite Et|reflexivity].
+      * intros c Hlt. destruct (Nat.eq_dec c (next s)) as [->|Nc].
+        -- right. rewrite !upd_same. simpl. rewrite ?upd_same. reflexivity.
+        -- left. rewrite upd_other by exact Nc. repeat split; auto. lia.
+    + sstep_cases E. apply (y_frame s _ _ rest Hy); simpl; auto.
+      intros t'. updt t t'; [now rewrite Et|reflexivity].
+  - (* LSendBuf *)
+    destruct (thr s t) as [|p|p|p c|p c|p|p] eqn:Et; try discriminate.
+    sstep_cases E; apply (y_frame s _ _ rest Hy); simpl; auto;
+      try (intros t'; updt t t'; [now rewrite Et|reflexivity]).
+    intros c' Hlt. left. updt c c'; simpl; auto.
+  - (* LHandoff *)
+    destruct (thr s t) as [|p|p|p c|p c|p|p] eqn:Et; try discriminate.
+    sstep_cases E; apply (y_frame s _ _ rest Hy); simpl; auto;
+      try (intros t'; updt t t'; [now rewrite Et|reflexivity]).
+    intros c' Hlt. left. updt c c'; simpl; auto.
+  - (* LSeeClosing *)
+    destruct (closing s); try discriminate.
+    destruct (thr s t) as [|p|p|p c|p c|p|p] eqn:Et; try discriminate;
+      inversion E; subst; apply (y_frame s _ _ rest Hy); simpl; auto;
+      intros t'; (updt t t'; [now rewrite Et|reflexivity]).
+  - destruct (thr s t) as [|p|p|p c|p c|p|p] eqn:Et; try discriminate.
+    sstep_cases E. apply (y_frame s _ _ rest Hy); simpl; auto.
+    intros t'. updt t t'; [now rewrite Et|reflexivity].
+  - destruct (thr s t) as [|p|p|p c|p c|p|p] eqn:Et; try discriminate.
+    sstep_cases E. apply (y_frame s _ _ rest Hy); simpl; auto.
+    intros t'. updt t t'; [now rewrite Et|reflexivity].
+  - (* LRecv *)
+    sstep_cases E. apply (y_frame s _ _ rest Hy); simpl; auto.
+    intros c' Hlt. left. updt c c'; simpl; auto.
+  - (* LAck *)
+    sstep_cases E; try (apply (y_skip _ _ _ Hy)); apply (y_frame s _ _ rest Hy); simpl; auto.
+    intros c' Hlt. left. updt c c'; simpl; auto.
+  - (* LNack *)
+    sstep_cases E; try (apply (y_skip _ _ _ Hy)); apply (y_frame s _ _ rest Hy); simpl; auto.
+    intros c' Hlt. left. updt c c'; simpl; auto.
+Qed.
+
+Section NoDup.
+Variable x : nat.
+
+Definition stat (s : sstate) (c : cid) : dstat :=
+  match c_st (copies s c) with Unsettled => DDelivered c | Nacked => DNacked | Acked => DAcked end.
+Definition entry (s : sstate) (c : cid) : (nat * nat) * dstat :=
+  ((x, c_pub (copies s c)), stat s c).
+
+(** the acceptor's table is the receive history (latest first) with the current settlements *)
+Definition R2 (s : sstate) (m : st2) : Prop :=
+  exists cs, m = map (entry s) cs /\ forall c, In c cs -> c_recv (copies s c) = true.
+
+Lemma r2_frame s s' m : R2 s m ->
+  (forall c, c_recv (copies s c) = true ->
+     c_recv (copies s' c) = true /\ c_st (copies s' c) = c_st (copies s c)
+     /\ c_pub (copies s' c) = c_pub (copies s c)) -> R2 s' m.
+Proof.
+  intros (cs & -> & Hr) Hc. exists cs. split.
+  - apply map_ext_in. intros c Hin. destruct (Hc c (Hr c Hin)) as (_ & H2 & H3).
+    unfold entry, stat. now rewrite H2, H3.
+  - intros c Hin. now apply Hc, Hr.
+Qed.
+
+Lemma get2_history s cs p :
+  get2 (map (entry s) cs) x p = None
+  \/ exists c1, In c1 cs /\ c_pub (copies s c1) = p
+                /\ get2 (map (entry s) cs) x p = Some (stat s c1).
+Proof.
+  induction cs as [|c cs IH]; simpl; [now left|]. rewrite Nat.eqb_refl. simpl.
+  destruct (Nat.eqb p (c_pub (copies s c))) eqn:Ep.
+  - apply Nat.eqb_eq in Ep. right. exists c. auto.
+  - destruct IH as [IH|(c1 & H1 & H2 & H3)]; [now left|]. right. exists c1. auto.
+Qed.
+
+Lemma set_by_copy_settle s cs c w d :
+  c_st (copies s c) = Unsettled ->
+  (d = match w with Unsettled => DDelivered c | Nacked => DNacked | Acked => DAcked end) ->
+  set_by_copy (map (entry s) cs) x c d
+  = map (entry (set_copy s c (mark_st (copies s c) w))) cs.
+Proof.
+  intros Hu Hd. unfold set_by_copy. rewrite map_map. apply map_ext. intros c1.
+  unfold entry, stat. simpl. destruct (Nat.eq_dec c1 c) as [->|Nc].
+  - rewrite upd_same, Hu. simpl. rewrite !Nat.eqb_refl. simpl. now subst d.
+  - rewrite upd_other by exact Nc. destruct (c_st (copies s c1)); try reflexivity.
+    rewrite Nat.eqb_refl. simpl. apply Nat.eqb_neq in Nc. rewrite (Nat.eqb_sym c c1), Nc.
+    reflexivity.
+Qed.
+Lemma set_by_copy_noop s cs c d : c_st (copies s c) <> Unsettled ->
+  set_by_copy (map (entry s) cs) x c d = map (entry s) cs.
+Proof.
+  intros Hu. unfold set_by_copy. rewrite map_map. apply map_ext. intros c1.
+  unfold entry, stat. destruct (c_st (copies s c1)) eqn:E1; try reflexivity.
+  rewrite Nat.eqb_refl. simpl. destruct (Nat.eqb c c1) eqn:Ec; [|reflexivity].
+  apply Nat.eqb_eq in Ec. subst. congruence.
+Qed.
+
+(** the verdict at a receive of copy c: every earlier received copy of the same publication
+    belongs to the same Sender, is older, hence Nacked *)
+Lemma recv_no_dup s rest cs c : SX s -> Y s rest -> c < next s ->
+  c_recv (copies s c) = false ->
+  (forall c1, In c1 cs -> c_recv (copies s c1) = true) ->
+  match get2 (map (entry s) cs) x (c_pub (copies s c)) with
+  | None | Some DNacked => @nil nat
+  | Some (DDelivered _) => [V_DUP_WITHOUT_NACK]
+  | Some DAcked => [V_DUP_AFTER_ACK]
+  end = [].
+Proof.
+  intros [I X] Hy Hlt Hur Hr.
+  destruct (get2_history s cs (c_pub (copies s c))) as [->|(c1 & H1 & H2 & ->)]; [reflexivity|].
+  assert (Hr1 : c_recv (copies s c1) = true) by now apply Hr.
+  assert (Hlt1 : c1 < next s) by now apply recv_lt.
+  assert (Hne : c1 <> c) by congruence.
+  assert (Et : c_thr (copies s c1) = c_thr (copies s c)).
+  { apply (y_uniq s rest Hy _ _ (c_pub (copies s c))); [rewrite <- H2|]; now apply (y_copy s rest Hy). }
+  assert (Hu : c_st (copies s c) = Unsettled).
+  { destruct (c_st (copies s c)) eqn:Est; [reflexivity| |];
+      rewrite (x_settled s X c) in Hur by congruence; discriminate. }
+  destruct (Nat.lt_ge_cases c1 c) as [Hl|Hg].
+  - unfold stat. now rewrite (v_dup _ I c1 c Hl Hlt Et).
+  - assert (Hl : c < c1) by lia. rewrite (v_dup _ I c c1 Hl Hlt1 (eq_sym Et)) in Hu. discriminate.
+Qed.
+
+Lemma sound2 ls : forall s m i, SX s -> Y s ls -> R2 s m ->
+  run_mon no_dup_step m (trace x s ls) i = [].
+Proof.
+  induction ls as [|l ls IH]; intros s m i SXs Hy R; simpl; [reflexivity|].
+  destruct (sstep s l) as [s'|] eqn:E; [|apply IH; auto; eapply y_skip; eauto].
+  assert (SXs' : SX s') by (eapply sx_step; eauto). pose proof SXs as [I X].
+  assert (Hy' : Y s' ls) by (eapply y_step; eauto).
+  assert (Hnoev : emit x s l = [] -> R2 s' m ->
+                  run_mon no_dup_step m (emit x s l ++ trace x s' ls) i = []).
+  { intros -> R'. simpl. now apply IH. }
+  destruct l as [t p|  | | |t|t|t|t|t|t| |c|c]; simpl in E.
+  - apply Hnoev; [reflexivity|]. sstep_cases E. apply (r2_frame s _ m R); simpl; auto.
+  - apply Hnoev; [reflexivity|]. sstep_cases E. apply (r2_frame s _ m R); simpl; auto.
+  - (* LTdWake: ACancel is ignored by this acceptor *)
+    sstep_cases E. simpl. apply IH; auto.
+  - apply Hnoev; [reflexivity|]. sstep_cases E; apply (r2_frame s _ m R); simpl; auto.
+  - apply Hnoev; [reflexivity|]. sstep_cases E; apply (r2_frame s _ m R); simpl; auto.
+    intros c Hr. rewrite upd_other; [auto|]. apply (recv_lt s c I) in Hr. lia.
+  - apply Hnoev; [reflexivity|]. sstep_cases E; apply (r2_frame s _ m R); simpl; auto.
+    intros c' Hr. updt c c'; simpl; auto.
+  - (* LHandoff *)
+    destruct (thr s t) as [|p|p|p c|p c|p|p] eqn:Et; try discriminate.
+    destruct (v_send _ I _ _ _ Et) as (Hlt & Hus & Hown & Hcl & _).
+    assert (Hcc : chan_closed s = false) by (destruct (v_closed _ I) as [H1 H2]; congruence).
+    rewrite Hcc in E. destruct (buf s) eqn:Eb; try discriminate. inversion E; subst s'; clear E.
+    simpl. rewrite Et. simpl.
+    pose proof (unsent_unrecv s c I Hus) as Hur.
+    assert (Hp : c_pub (copies s c) = p).
+    { pose proof (y_copy s _ Hy c Hlt) as Hc. rewrite Hown, Et in Hc. simpl in Hc. congruence. }
+    destruct R as (cs & -> & Hr).
+    pose proof (recv_no_dup s _ cs c SXs Hy Hlt Hur Hr) as Hv. rewrite Hp in Hv. rewrite Hv. simpl.
+    apply IH; auto. exists (c :: cs). split.
+    + simpl. f_equal.
+      * unfold entry, stat. simpl. rewrite upd_same. simpl. rewrite Hp.
+        destruct (c_st (copies s c)) eqn:Est; [reflexivity| |];
+          rewrite (x_settled s X c) in Hur by congruence; discriminate.
+      * apply map_ext_in. intros c1 Hin. unfold entry, stat. simpl.
+        rewrite upd_other; [reflexivity|]. intros ->. rewrite (Hr c Hin) in Hur. discriminate.
+    + intros c1 [<-|Hin]; simpl; [now rewrite upd_same|].
+      destruct (Nat.eq_dec c1 c) as [->|Nc]; [now rewrite upd_same|]. rewrite upd_other by exact Nc.
+      now apply Hr.
+  - apply Hnoev; [reflexivity|]. sstep_cases E; apply (r2_frame s _ m R); simpl; auto.
+  - apply Hnoev; [reflexivity|]. sstep_cases E; apply (r2_frame s _ m R); simpl; auto.
+  - apply Hnoev; [reflexivity|]. sstep_cases E; apply (r2_frame s _ m R); simpl; auto.
+  - (* LRecv *)
+    destruct (buf s) as [|c b] eqn:Eb; try discriminate. inversion E; subst s'; clear E.
+    simpl. rewrite Eb. simpl.
+    assert (Hin : In c (buf s)) by (rewrite Eb; now left).
+    destruct (v_buf _ I c Hin) as [Hlt Hsent].
+    pose proof (x_buf_unrecv s X c Hin) as Hur.
+    destruct R as (cs & -> & Hr).
+    rewrite (recv_no_dup s _ cs c SXs Hy Hlt Hur Hr). simpl.
+    apply IH; auto. exists (c :: cs). split.
+    + simpl. f_equal.
+      * unfold entry, stat. simpl. rewrite upd_same. simpl.
+        destruct (c_st (copies s c)) eqn:Est; [reflexivity| |];
+          rewrite (x_settled s X c) in Hur by congruence; discriminate.
+      * apply map_ext_in. intros c1 Hin1. unfold entry, stat. simpl.
+        rewrite upd_other; [reflexivity|]. intros ->. rewrite (Hr c Hin1) in Hur. discriminate.
+    + intros c1 [<-|Hin1]; simpl; [now rewrite upd_same|].
+      destruct (Nat.eq_dec c1 c) as [->|Nc]; [now rewrite upd_same|]. rewrite upd_other by exact Nc.
+      now apply Hr.
+  - (* LAck *)
+    destruct (c_recv (copies s c)) eqn:Er; try discriminate. simpl.
+    destruct R as (cs & -> & Hr).
+    destruct (c_st (copies s c)) eqn:Est; inversion E; subst s'; clear E; apply IH; auto.
+    + exists cs. split; [now apply set_by_copy_settle|].
+      intros c1 Hin. simpl. updt c c1; simpl; auto.
+    + exists cs. split; [apply set_by_copy_noop; congruence|exact Hr].
+    + exists cs. split; [apply set_by_copy_noop; congruence|exact Hr].
+  - (* LNack *)
+    destruct (c_recv (copies s c)) eqn:Er; try discriminate. simpl.
+    destruct R as (cs & -> & Hr).
+    destruct (c_st (copies s c)) eqn:Est; inversion E; subst s'; clear E; apply IH; auto.
+    + exists cs. split; [now apply set_by_copy_settle|].
+      intros c1 Hin. simpl. updt c c1; simpl; auto.
+    + exists cs. split; [apply set_by_copy_noop; congruence|exact Hr].
+    + exists cs. split; [apply set_by_copy_noop; congruence|exact Hr].
+Qed.
+
+Lemma y_init cap0 fx ls : NoDup (spawn_pubs ls) -> Y (sinit cap0 fx) ls.
+Proof. intros H. constructor; simpl; [lia|discriminate|discriminate|exact H]. Qed.
+
+Theorem no_dup_sound cap0 fx ls : NoDup (spawn_pubs ls) ->
+  mon_no_dup (trace x (sinit cap0 fx) ls) = [].
+Proof.
+  intros H. apply sound2; [apply (sx_reach cap0 fx [])|now apply y_init|].
+  exists []. split; [reflexivity|]. intros c [].
+Qed.
+End NoDup.
+
+(** the hypothesis is satisfiable, and the statement is not vacuous: the D13 schedule has two
+    Senders for two publications and two receives *)
+Example no_dup_hyp_example :
+  NoDup (spawn_pubs d13_schedule)
+  /\ mon_no_dup (trace 7 (sinit 0 false) d13_schedule) = []
+  /\ length (trace 7 (sinit 0 false) d13_schedule) = 3.
+Proof.
+  split; [|split; vm_compute; reflexivity].
+  vm_compute. repeat constructor; simpl; intuition discriminate.
+Qed.
+(** ... and it is needed: two Senders for the SAME publication are a duplicate without Nack *)
+Example no_dup_hyp_needed :
+  mon_no_dup (trace 7 (sinit 1 true)
+                [LSpawn 0 5; LSpawn 1 5; LStep 0; LStep 0; LSendBuf 0; LRecv; LAck 0;
+                 LSeeAcked 0; LStep 0; LStep 1; LStep 1; LSendBuf 1; LRecv])
+  = [(2, V_DUP_AFTER_ACK)].
+Proof. vm_compute. reflexivity. Qed.
+
+Print Assumptions one_in_flight_sound.
+Print Assumptions one_in_flight_only_closing.
+Print Assumptions no_dup_sound.
